@@ -4,6 +4,7 @@
 //! and forward them through AnyTLS Stream
 
 use crate::client::Client;
+use crate::protocol::{Command, Frame};
 use crate::util::{AnyTlsError, Result};
 use std::net::{IpAddr, Ipv4Addr, Ipv6Addr};
 use std::sync::Arc;
@@ -237,6 +238,9 @@ async fn handle_socks5_connection(
             );
         }
 
+        // The peer has finished sending (or this direction failed): pass the end of data on to the client
+        let _ = client_write.shutdown().await;
+
         tracing::debug!(
             "[SOCKS5-Task1] Task completed for stream {} after {} iterations",
             stream_id,
@@ -329,6 +333,11 @@ async fn handle_socks5_connection(
                 }
             }
         }
+        // The client has finished sending (or this direction failed): tell the peer, after the data
+        let _ = session_for_write
+            .write_control_frame(Frame::control(Command::Fin, stream_id))
+            .await;
+
         tracing::debug!(
             "[SOCKS5-Task2] Task2 (client->proxy) finished for stream {} after {} iterations",
             stream_id,
